@@ -33,5 +33,16 @@ def main(argv=None):
     return core.run_property(pid, tier, seed)
 
 
+def _main():
+    try:
+        return main()
+    except SystemExit:
+        raise
+    except BaseException:        # a failure of the harness itself is never a verdict: exit 3, no VIOLATION line
+        import traceback
+        print('HARNESS-ERROR %s' % traceback.format_exc()[-3000:], flush=True)
+        return 3
+
+
 if __name__ == '__main__':
-    sys.exit(main())
+    sys.exit(_main())
